@@ -18,8 +18,9 @@
 
    Sizes are those of LP64 / libstdc++ (node of primary 136 bytes, node of triggers 80, list nodes 24 and 32, rb-tree
    node 48, bucket 16, string block length+1 when length > 15); the theorems do not depend on them (only on > 0).
-   nl_clear() re-creates the two bucket vectors with `limit` buckets (none for limit 0) in the order of the source.  fetch is
-   not modelled here: it frees one list node and allocates one of the same size.                                                                                  *)
+   nl_clear() releases every container and then re-creates the two bucket vectors with `limit` buckets (none for limit 0), in the
+   order of the source (a6386b3).  fetch moves the node of the recency list with one splice (117bb4c): it obtains and releases
+   nothing (RFetch).                                                                                  *)
 From Coq Require Import NArith List Bool.
 From CppcmsV Require Import C07.Defs C08.Defs.
 Import ListNotations.
@@ -197,11 +198,13 @@ Definition r_delete_node (k : key) (r : rstate) : rstate :=
   let r1 := free_where (owned_by k) r in
   free_where (dead_trigger (r_b r1)) r1.                               (* if(list.empty()) triggers.erase(...) *)
 
-(* ---- nl_clear() / clear() ----
-   timeout.clear(); lru.clear(); primary.clear(); primary.rehash(limit); triggers.clear(); triggers.rehash(limit); ...
-   rehash(n) builds a vector of n buckets FIRST (nothing is allocated for n = 0) and releases the old one afterwards; the
-   first rehash runs while the trigger index still holds its blocks.  When it throws, std::bad_alloc leaves nl_clear():
-   the bool of the result is false and the state is the one reached so far (finding 1 of docs/C08.md). *)
+(* ---- nl_clear() / clear() ----   (as repaired by /repo a6386b3)
+   timeout.clear(); lru.clear(); primary.clear(); triggers.clear(); size = 0; triggers_count = 0;
+   primary.rehash(limit); triggers.rehash(limit);
+   Every container gives its memory back FIRST; only then the two bucket vectors are re-created.  rehash(n) builds a vector of n
+   buckets (nothing is allocated for n = 0) and releases the old one afterwards.  When one of the two allocations throws,
+   std::bad_alloc leaves nl_clear() - the bool of the result is false - but the four indexes are already empty and the counters
+   zero: the cache is consistent, holds nothing but (old or new) bucket vectors, and the next clear()/store tries again. *)
 Definition primary_side (t : tag) := match t with TPN _ | TPX _ => true | _ => false end.
 Definition trigger_side (t : tag) := match t with TTN _ | TTX _ | TL _ _ => true | _ => false end.
 Definition is_vec (w : bool) (t : tag) := match t with TV w' _ => Bool.eqb w w' | _ => false end.
@@ -218,8 +221,8 @@ Definition regrow (w : bool) (r : rstate) : rstate * bool :=
     | (r1, false) => (r1, false)
     end.
 Definition nl_clear (r : rstate) : rstate * bool :=
-  bind (regrow true (free_where primary_side r)) (fun r2 =>
-  regrow false (free_where trigger_side r2)).
+  let r1 := free_where trigger_side (free_where primary_side r) in
+  bind (regrow true r1) (regrow false).
 Definition rclear (r : rstate) : rstate := fst (nl_clear r).
 
 (* ---- add_trigger(p, name) ---- *)
@@ -252,7 +255,7 @@ Definition r_store (prot : bool) (k : key) (v : list N) (trigs ev : list key) (r
   | (r1, true) =>
       match r_store_body prot k trigs ev r1 with
       | (r2, true) => r2
-      | (r2, false) => free_where is_ar (rclear (free_where is_tmp_or_key r2))  (* unwinding; nl_clear() - which may throw -; ~ar *)
+      | (r2, false) => free_where is_ar (rclear (free_where is_tmp_or_key r2))  (* unwinding; nl_clear() - whose rehash calls may throw, with the indexes already empty -; ~ar *)
       end
   end.
 
@@ -264,6 +267,7 @@ Inductive rop :=
 | RRemove (k : key)
 | RRise (t : key)
 | RClear
+| RFetch (k : key)                   (* lru.splice(lru.begin(),lru,p->second.lru): no block is obtained or released *)
 | RInject (faults : list bool).      (* the environment: the next allocations fail as listed *)
 
 Definition rstep (prot : bool) (o : rop) (r : rstate) : rstate :=
@@ -272,6 +276,7 @@ Definition rstep (prot : bool) (o : rop) (r : rstate) : rstate :=
   | RRemove k => r_delete_node k r
   | RRise t => fold_left (fun r k => r_delete_node k r) (linked_keys t (r_b r)) r
   | RClear => rclear r
+  | RFetch _ => r
   | RInject f => with_faults f r
   end.
 
